@@ -1,5 +1,6 @@
 ---------------------------- MODULE Trace_CsvShape ----------------------------
-(* Judges recorded calls of the real import_csv.parse_file against CsvShape!Clauses.              *)
+(* Judges recorded calls of the real import_csv.parse_file against CsvShape!Clauses (as the        *)
+(* sequence CsvShape!Failed).                                                                      *)
 (* Cases: <<[inp |-> [src, segs, rows, delim, quote, headers], grid |-> [n, cols],                  *)
 (*           out |-> [nt, names, lens, cols], exc |-> ""]>>                                          *)
 (* For a shape input the grid the worker wrote must be the grid the shape denotes (GridOf);        *)
@@ -11,15 +12,15 @@ VARIABLES i, bad
 NormGrid(g) == [n |-> g.n, cols |-> [c \in 1..Len(g.cols) |-> Norm(g.cols[c])]]
 Judge(c) ==
   LET g == NormGrid(c.grid) IN
-  IF c.inp.src = "shape" /\ GridOf(c.inp.segs, c.inp.headers) # g THEN {"C32.binding"}
-  ELSE IF c.exc # "" THEN {"C32.raised"}
-  ELSE Clauses(g, c.inp.headers, c.out)
+  IF c.inp.src = "shape" /\ GridOf(c.inp.segs, c.inp.headers) # g THEN <<"C32.binding">>
+  ELSE IF c.exc # "" THEN <<"C32.raised">>
+  ELSE Failed(g, c.inp.headers, c.out)
 Init == i = 0 /\ bad = <<>> /\ (N > 0 \/ JsonSerialize(IOEnv.OUT_FILE, <<>>))
 Next ==
   /\ i < N
   /\ i' = i + 1
   /\ bad' = LET j == Judge(Cases[i + 1])
-            IN IF j = {} THEN bad ELSE Append(bad, [i |-> i + 1, c |-> j])
+            IN IF j = <<>> THEN bad ELSE Append(bad, [i |-> i + 1, c |-> j])
   /\ (i' < N \/ JsonSerialize(IOEnv.OUT_FILE, bad'))
 Spec == Init /\ [][Next]_<<i, bad>>
 View == i
